@@ -82,7 +82,10 @@ def compare(got, want, path="result", atol=0.0):
     if want.dtype.kind in "iub":
         ok = numpy.array_equal(got, want)
     else:
-        ok = numpy.allclose(got, want, rtol=1e-12 if not atol else 1e-9, atol=atol, equal_nan=True)
+        # a few units in the last place of the *result type*: numpoly reduces axis by axis, numpy in
+        # one sweep, so in float16 / float32 the two orders of multiplication round differently
+        rtol = max(1e-12 if not atol else 1e-9, 8 * float(numpy.finfo(want.dtype).eps))
+        ok = numpy.allclose(got, want, rtol=rtol, atol=atol, equal_nan=True)
     if not ok:
         return f"{path}: values {got.tolist()!r:.300} != numpy's {want.tolist()!r:.300}"
     return None
